@@ -11,7 +11,7 @@ Leaves are abstract (contracts/parsing.py): accepts(t, x, mode) / converted(t, x
 import z3
 
 from pyvc import sym, Unsupported
-from pyvc.sym import V, I, B, S, VBool, VInt, VObj, VTup, VSeq, VMap, VRec, VCls, VNone, VDict, VStr, VFunc
+from pyvc.sym import V, I, B, S, VBool, VInt, VObj, VTup, VSeq, VMap, VRec, VCls, VNone, VDict, VStr, VFunc, VOpaque
 from pyvc.contract import (contract, lemma, specfn, audit, Desc, INT, NAT, POS, BOOL, STR, NONE, OBJ, OBJ_NN, LIST, TUPLE,
                            Str, Seq, Obj, Cls, Rec, Tup, TRUE, FALSE, Const)
 from pyvc.models import RecordModel
@@ -78,7 +78,22 @@ def _install(world):
         return base_binop(ex, op, a, b, node)
     om.binop = binop
     world.ext_table["utype.Options"] = om.class_model.class_value(None)
-    world.models["LogicalClass"] = RecordModel(world, R, "LogicalType", LOGICAL_FIELDS)
+    lm = RecordModel(world, R, "LogicalType", LOGICAL_FIELDS)
+    world.models["LogicalClass"] = lm
+    world.ext_table["typing.Any"] = VOpaque("typing.Any")
+
+    def build(ex, cls, args, kwargs, node):
+        """LogicalType(name, bases, namespace): a new combination; its args / combinator come from the namespace"""
+        if len(args) != 3 or not isinstance(args[2], VDict):
+            raise Unsupported("LogicalType(...) with unexpected arguments")
+        ns = args[2]
+        a = ns.items["__args__"][1]
+        rec = VRec(lm, {"args": VSeq("tuple", a.arr, a.n), "combinator": ns.items["__combinator__"][1]}, ref=ex.fresh("combo", V))
+        ex.assume(rec.ref != sym.NONE)
+        ex.created.add(id(rec))
+        ex.last_combo = (a, ns.items["__combinator__"][1], rec)
+        return rec
+    lm.class_model.construct = build
 
 
 LOGICAL_FIELDS = dict(combinator=STR, args=Seq("tuple", elem=CLSELEM, nonempty=True))
@@ -331,18 +346,102 @@ def _argat(ex, fr, r, i):
     return VObj(argat(ex.box(r), i.t if isinstance(i, VInt) else z3.IntVal(i)))
 
 
+parg = z3.Function("parsed_arg", V, V)          # LogicalType._parse_arg as a pure function (ghost)
+
+
+@specfn("parg")
+def _parg(ex, fr, x):
+    return VObj(parg(ex.box(x)))
+
+
+@specfn("isany")
+def _isany(ex, fr, x):
+    """x == typing.Any (identity)"""
+    return VBool(ex.box(x) == ex.world.opaque_const("typing.Any"))
+
+
+@contract(R, "LogicalType._parse_arg", props=["C09"])
+class PARSE_ARG:
+    self_model = "LogicalClass"
+    cases = {"any": dict(arg=OBJ)}
+    result = OBJ
+    returns = {"pure": "result is parg(arg)"}
+    only_raises = []
+    trusted = "normalisation of one operand (None -> NoneType, generic aliases -> Rule.annotate, ...): a deterministic function of the operand"
+
+
+def _keep(op, i):
+    return "True" if op == "~" else "(not isany(parg(at(args, %s))))" % i
+
+
+def _combine_inv(op):
+    inv = {
+        "no_duplicates": "forall(len(__args), lambda i: forall(i, lambda j: not same(at(__args, j), at(__args, i))))",
+        "only_kept_operands": "forall(len(__args), lambda j: exists(_k, lambda i: at(__args, j) is parg(at(args, i)) and %s))" % _keep(op, "i"),
+        "every_kept_operand_present": "forall(_k, lambda i: implies(%s, exists(len(__args), lambda j: same(at(__args, j), parg(at(args, i))))))" % _keep(op, "i"),
+        "bounded": "len(__args) <= _k",
+    }
+    if op in ("|", "^"):
+        inv["no_any_so_far"] = "forall(_k, lambda i: not isany(parg(at(args, i))))"
+    return inv
+
+
+def _combine_post(op):
+    n = "len(args)"
+    some_any = "exists(%s, lambda i: isany(parg(at(args, i))))" % n
+    none_kept = "forall(%s, lambda i: not %s)" % (n, _keep(op, "i"))
+    d = {}
+    if op in ("|", "^"):
+        d["any_absorbs"] = "implies(%s, result is Rule)" % some_any
+    d["nothing_left_gives_Rule"] = "implies(%s%s, result is Rule)" % (none_kept, (" and not " + some_any) if op in ("|", "^") else "")
+    d["built_from_the_kept_operands_without_duplicates"] = "built_ok(result, args, '%s')" % op
+    d["ghost_operator"] = "made_by(result, operator)"
+    d["ghost_count"] = "nargs(result) == len(args)"
+    d["ghost_args"] = "forall(len(args), lambda i: argat(result, i) is at(args, i))"
+    return d
+
+
+@specfn("built_ok")
+def _built_ok(ex, fr, result, args, op):
+    """when a new combination was built on this path: its args are the kept operands (parsed), in order of
+    first occurrence, without duplicates, and its combinator is the operator"""
+    b = getattr(ex, "last_combo", None)
+    if b is None or b[2] is not result:
+        return VBool(True)
+    bargs, bop, _ = b
+    opc = op.const()
+    keep = (lambda i: z3.BoolVal(True)) if opc == "~" else \
+        (lambda i: parg(z3.Select(args.arr, i)) != ex.world.opaque_const("typing.Any"))
+    same = lambda x, y: z3.Or(x == y, sym.py_eq(x, y))
+    nodup = ex.forall(0, bargs.n, lambda i: ex.forall(0, i, lambda j: z3.Not(same(z3.Select(bargs.arr, j), z3.Select(bargs.arr, i)))))
+    frm = ex.forall(0, bargs.n, lambda j: ex.exists(0, args.n, lambda i: z3.And(z3.Select(bargs.arr, j) == parg(z3.Select(args.arr, i)), keep(i))))
+    cov = ex.forall(0, args.n, lambda i: z3.Implies(keep(i), ex.exists(0, bargs.n, lambda j: same(z3.Select(bargs.arr, j), parg(z3.Select(args.arr, i))))))
+    return VBool(z3.And(nodup, frm, cov, bop.t == z3.StringVal(opc), z3.Or(bargs.n > 1, z3.And(z3.StringVal(opc) == z3.StringVal("~"), bargs.n >= 1))))
+
+
+def _combine_setup(ex, frame):
+    a = frame.env["args"]
+    # operands given as strings become ForwardRefs first (external constructor): not among the cases
+    ex.assume(ex.forall(0, a.n, lambda i: z3.Not(sym.sub(sym.ty(z3.Select(a.arr, i)), ex.world.classes.of_py(str).t))))
+    ex.last_combo = None
+
+
 @contract(R, "LogicalType.combine", props=["C09"])
 class COMBINE:
-    """interface (ghost record of the call): the result was produced from `operator` and exactly the given
-    argument sequence, in that order.  What combine does with it (Any absorption, de-duplication,
-    collapse of a single argument) is NOT under contract."""
+    """C09 algebra: `Any` absorbs a union / exclusive-or (the result is the unconstrained Rule) and is
+    ignored by a conjunction; duplicate operands are dropped (first occurrence kept, order preserved);
+    nothing left gives Rule; a single operand is returned as is (except under negation)."""
     self_model = "LogicalClass"
-    cases = {"any": dict(operator=STR, args=Seq("tuple"))}
+    cases = {op: dict(operator=Str(op), args=Seq("tuple")) for op in ("&", "|", "^", "~")}
+    setup = staticmethod(_combine_setup)
     result = OBJ_NN
-    returns = {"operator_recorded": "made_by(result, operator)", "count_recorded": "nargs(result) == len(args)",
-               "arguments_recorded_in_order": "forall(len(args), lambda i: argat(result, i) is at(args, i))"}
-    only_raises = ["Exception"]
-    trusted = "ghost record of the call; the body (Any absorption, de-duplication, single-argument collapse, class creation) is not verified"
+    loops = {0: dict(invariant_by_case={op: _combine_inv(op) for op in ("&", "|", "^", "~")})}
+    returns_by_case = {op: _combine_post(op) for op in ("&", "|", "^", "~")}
+    definitional = ["ghost_operator", "ghost_count", "ghost_args"]
+    only_raises = []
+    assumes = ["operands are not given as strings (those are wrapped in ForwardRef first)",
+               "_parse_arg is a deterministic function of the operand (ghost `parg`)",
+               "ghost_* clauses record the call for the callers (combine_by, operators): definitional"]
 
 
 def _parts_spec(who, comb):
@@ -424,3 +523,13 @@ def _op_contract(name, op, reverse):
 
 for _nm, _op, _rev in (("__and__", "&", False), ("__rand__", "&", True), ("__xor__", "^", False), ("__rxor__", "^", True)):
     _op_contract(_nm, _op, _rev)
+
+
+@contract(R, "LogicalType.__invert__", props=["C09"])
+class INVERT:
+    """double negation cancels: ~(~T) is the operand T of the negation, not a negation of a negation"""
+    cases = {"negation": dict(cls=Rec("LogicalClass", combinator=Str("~"))),
+             "other": dict(cls=Rec("LogicalClass", combinator=Str("|")))}
+    returns_by_case = {"negation": {"cancels": "result is at(cls.args, 0)"},
+                       "other": {"negates": "made_by(result, '~') and nargs(result) == 1 and argat(result, 0) is cls"}}
+    only_raises = []
